@@ -266,12 +266,15 @@ def c06(chk):
         chk.cov["samples"] += [l.strip() for l in open(s).read().splitlines()[:4]]
 
 
-def lines_run(chk, exe, gen_args, name, relevant=None):
-    """A line-mode transcript: run, drive, report."""
+def lines_run(chk, exe, gen_args, name, relevant=None, stateful=False):
+    """A line-mode transcript: run, drive, report.  Stateful transcripts (scanner tables) go to one driver process."""
     tr = chk.transcript(exe, gen_args, name)
     if tr is None:
         return None
-    rep = chk.drive(tr, name)
+    rep = chk.drive(tr, name, parallel=not stateful)
+    if stateful:
+        chk.cov["states"] += rep["stats"].get("states", 0)
+        chk.cov["transitions"] += rep["stats"].get("transitions", 0)
     st = rep["stats"]
     chk.cov["evaluations"] += st.get("evaluations", rep["summary"]["lines"])
     chk.cov["distinct_nontrivial"] += st.get("nontrivial", 0)
@@ -342,7 +345,89 @@ def c05(chk):
     chk.assumptions += ["derive(PartialEq, Ord, Default), derive_more::Display and core's integer Display/FromStr are modelled, not verified"]
 
 
-REGISTRY = {"C04": c04, "C05": c05, "C01": c01, "C02": c02, "C03": c03, "C06": c06}
+def scanner_runs(chk, exe, kind, two_channel_thorough=True):
+    lines_run(chk, exe, [kind + "-explore", 0], kind + "-explore-1ch", stateful=True)
+    if chk.tier == "thorough" and two_channel_thorough:
+        lines_run(chk, exe, [kind + "-explore", 3, 15] if kind == "pn" else [kind + "-explore", 15], kind + "-explore-hi", stateful=True)
+        if kind == "pn":
+            lines_run(chk, exe, [kind + "-explore", 0, 9], kind + "-explore-2ch", stateful=True)
+    lines_run(chk, exe, [kind + "-random"], kind + "-random", stateful=True)
+    sample_from(chk, kind + "-random", 3)
+
+
+EXPLORE_RULE = ("product exploration: breadth-first over REAL scanner states (keyed by the implementation's Debug string, the scanner is Copy) x every input "
+                "of an abstracted alphabet (all contributing controllers x values {0,1,127}, two non-contributing controllers, a non-CC channel message, "
+                "two system messages, reset) until no new state appears; every transition is compared with the model and with the history specification; "
+                "plus seeded random histories over the full alphabet on 16 channels through Raw/Structured/foreign messages with resets, mid-history copies, "
+                "injected encoder output and running forms. evaluations = transitions + random operations; non-trivial = operations that reported a message")
+
+
+def c07(chk):
+    chk.extract()
+    chk.proofs(["Midi.Props.C07"])
+    exe = chk.cargo_build("std")
+    if exe is None:
+        return
+    run_corpus(chk, exe)
+    lines_run(chk, exe, ["enc14-lines"], "enc14")
+    sample_from(chk, "enc14", 2)
+    scanner_runs(chk, exe, "cc")
+    lines_run(chk, exe, ["cc-roundtrip"], "cc-roundtrip", stateful=True)
+    chk.cov["rule"] = ("encoder: every channel x every controller number 0-127 (panic expected from 32 up) x a value sweep (quick: every 61st value + boundaries + "
+                       "seeded random; thorough: all 16384) for Raw and Structured targets, incl. the array conversion; scanner: " + EXPLORE_RULE)
+
+
+def c08(chk):
+    chk.extract()
+    chk.proofs(["Midi.Props.C08"])
+    exe = chk.cargo_build("std")
+    if exe is None:
+        return
+    run_corpus(chk, exe)
+    scanner_runs(chk, exe, "cc")
+    chk.cov["rule"] = EXPLORE_RULE
+
+
+def c09(chk):
+    chk.extract()
+    chk.proofs(["Midi.Props.C09"])
+    exe = chk.cargo_build("std")
+    if exe is None:
+        return
+    run_corpus(chk, exe)
+    lines_run(chk, exe, ["encpn-lines"], "encpn")
+    sample_from(chk, "encpn", 3)
+    chk.cov["rule"] = ("for each of the 8 constructors x both byte orders x Raw and Structured targets: full sweep of each dimension separately (16 channels; "
+                       "all 16384 numbers; all 128 / 16384 values) plus seeded samples of the product (thorough: 200000 per combination, + foreign target); every "
+                       "request compares the six accessors, the four slots and the array conversion")
+
+
+def c10(chk):
+    chk.extract()
+    chk.proofs(["Midi.Props.C10", "Midi.Props.C09"])
+    exe = chk.cargo_build("std")
+    if exe is None:
+        return
+    run_corpus(chk, exe)
+    scanner_runs(chk, exe, "pn")
+    lines_run(chk, exe, ["pn-roundtrip"], "pn-roundtrip", stateful=True)
+    sample_from(chk, "pn-roundtrip", 2)
+    chk.cov["rule"] = EXPLORE_RULE + ("; end-to-end oracle on the real code: seeded random messages (boundary values over-represented) encoded by the real "
+                                      "encoder and fed to the real scanner, fresh and after a random prior history: nothing until the last message, exactly the original on it")
+
+
+def c11(chk):
+    chk.extract()
+    chk.proofs(["Midi.Props.C11"])
+    exe = chk.cargo_build("std")
+    if exe is None:
+        return
+    run_corpus(chk, exe)
+    scanner_runs(chk, exe, "pn")
+    chk.cov["rule"] = EXPLORE_RULE
+
+
+REGISTRY = {"C07": c07, "C08": c08, "C09": c09, "C10": c10, "C11": c11, "C04": c04, "C05": c05, "C01": c01, "C02": c02, "C03": c03, "C06": c06}
 
 
 def replay(pid, path):
